@@ -197,6 +197,22 @@ func timing(q treq) tresp {
 			if q.Stall == "late" {
 				d = time.Duration(q.LateMs) * time.Millisecond
 			}
+			if q.Stall == "body" || q.Stall == "midbody" {
+				// the response headers arrive at once, the body does not (midbody: after a part of it)
+				w.Header().Set("Content-Type", "application/x-frugal")
+				w.WriteHeader(200)
+				if q.Stall == "midbody" {
+					w.Write([]byte("AAAA"))
+				}
+				if fl, ok := w.(http.Flusher); ok {
+					fl.Flush()
+				}
+				select {
+				case <-time.After(d):
+				case <-req.Context().Done():
+				}
+				return
+			}
 			select {
 			case <-time.After(d):
 			case <-req.Context().Done():
